@@ -22,9 +22,11 @@ func RunFiles(bytecode *bytecode.Bytecode, filenames []string, mode ReplaceMode,
 		actualMode = NOTHING
 	}
 	result := Matches{}
+	// a file renamed by one command is known to the later ones under its new name
+	currentNames := append([]string{}, filenames...)
 	for _, command := range bytecode.Bytecode {
 		// command.print()
-		for _, filename := range filenames {
+		for _, filename := range currentNames {
 			actualFiles := []string{}
 			info, err := os.Stat(filename)
 			if err != nil {
@@ -58,6 +60,12 @@ func RunFiles(bytecode *bytecode.Bytecode, filenames []string, mode ReplaceMode,
 					err := os.Rename(actualFilename, foundMatches[0].Replacement.GetValueOrDefault(""))
 					if err != nil {
 						os.Stderr.WriteString("Failed to rename file '" + actualFilename + "' to '" + foundMatches[0].Replacement.GetValueOrDefault("") + "'\n")
+					} else {
+						for i := range currentNames {
+							if currentNames[i] == actualFilename {
+								currentNames[i] = foundMatches[0].Replacement.GetValueOrDefault("")
+							}
+						}
 					}
 				}
 			}
